@@ -77,3 +77,35 @@ Definition nice_sensitive (m : Z) (d : Q * Q) : bool :=
   || negb (Nat.eqb (length (step_alts (span_of (fst (nice_pass m d)) (snd (nice_pass m d))) m)) 1)
   || negb (is_integer (step2 m d))
   || negb (is_integer (fst (nice_pass m d))) || negb (is_integer (snd (nice_pass m d))).
+
+(* ---------- ticks: the admissible tick lists ------------------------------
+   d3_scale_linearTickRange computes ceil(lo/step) and floor(hi/step) in
+   doubles; where lo/step (hi/step) is within the band of an integer the
+   double may fall on the other side, i.e. the first (last) multiple is
+   present or absent; where err is within the band of a threshold either step
+   may be chosen.  Every admissible outcome is a full list of multiples. *)
+Definition ceil_alts_z (t : Q) : list Z :=
+  let k := Qceiling t in
+  let g := inject_Z k - t in
+  [k] ++ (if Qle_bool g (end_band t) then [(k + 1)%Z] else [])
+      ++ (if Qle_bool (1 - g) (end_band t) then [(k - 1)%Z] else []).
+
+Definition floor_alts_z (t : Q) : list Z :=
+  let k := Qfloor t in
+  let f := t - inject_Z k in
+  [k] ++ (if Qle_bool f (end_band t) then [(k - 1)%Z] else [])
+      ++ (if Qle_bool (1 - f) (end_band t) then [(k + 1)%Z] else []).
+
+Definition mults (step : Q) (c : Z) (n : nat) : list Q :=
+  map (fun i => Qred (inject_Z (c + Z.of_nat i) * step)) (seq 0 n).
+
+(* (step, ticks) for every admissible combination of decisions *)
+Definition ticks_alts (a b : Q) (m : Z) : list (Q * list Q) :=
+  let (lo, hi) := extent a b in
+  flat_map (fun step =>
+              if Qeq_bool step 0 then [(0, [])]
+              else flat_map (fun c =>
+                               map (fun f => (step, mults step c (Z.to_nat (f - c + 1))))
+                                   (floor_alts_z (hi / step)))
+                            (ceil_alts_z (lo / step)))
+           (step_alts (hi - lo) m).
